@@ -1,12 +1,12 @@
 package main
 
 import (
-	"path/filepath"
 	"fmt"
 	"go/constant"
 	"go/token"
 	"go/types"
 	"os"
+	"path/filepath"
 	"sort"
 	"strings"
 	"sync"
